@@ -1,2 +1,257 @@
-/-! Line-protocol driver stub (to be filled in): reads stdin, echoes nothing. -/
-def main : IO Unit := pure ()
+import SMV.Model.Protocol
+import Std.Data.HashSet
+/-!
+# Line-protocol driver for the C06 protocol model (`drv_protocol`)
+
+Two scenario kinds (one scenario = lines between `scn <kind> <name>` and `end`):
+
+`scn validate <name>` — check that a sequence of protocol steps (the steps an implementation schedule
+realised, as mapped by the harness) is a valid `Step` sequence of the model from `init`
+(`run?`, proved sound w.r.t. `Step`/`Reach` in `SMV.Lemmas.Protocol`) and print the model's outcome:
+```
+cfg fixed=<0|1> atomic=<0|1> n=<senders>
+l <label> <sender> [<id>]        label ∈ put acqOk acqFail pop nested done empty release recheckEmpty recheckMore
+```
+With `atomic=1` an `empty i` must be followed at once by `release i`; the pair is the model's
+`emptyRelease i`.
+
+`scn enum <name>` — enumerate every terminal outcome of the model for a program (bounded search, used
+only to validate the model against the implementation, never as a proof):
+```
+cfg fixed=<0|1> atomic=<0|1> n=<senders>
+prog <sender> <id,id,...>        events the sender sends, in order (next send after the previous returned)
+nest <id> <id,id,...>            events sent by the callbacks of <id> (nested sends)
+```
+Output per outcome: `out proc=<actor>:<id>,... rets=<id>:<first|N>,... left=<id>,...`.
+`rets`: per top-level send, the id of the first event its *outer* drain loop processed (what `send`
+returns through `first_result`), `N` if it processed none.
+-/
+open SMV.Protocol
+
+namespace DrvP
+
+def splitWs (s : String) : List String := (s.splitOn " ").filter (· ≠ "")
+def natOf (s : String) : Nat := s.toNat?.getD 0
+def natList (s : String) : List Nat :=
+  if s == "-" || s == "" then [] else (s.splitOn ",").filterMap String.toNat?
+def kv (toks : List String) (k : String) : String :=
+  match toks.findSome? (fun t => match t.splitOn "=" with
+      | [a, b] => if a == k then some b else none
+      | _ => none) with
+  | some v => v
+  | none => "-"
+
+/-- program layer on top of the protocol state: what each sender is sending, return values -/
+structure P where
+  s : S
+  n : Nat
+  todo : List (List Nat)
+  sending : List (Option Nat)
+  first : List (Option Nat)
+  outer : List Bool
+  nestLeft : List Nat
+  procBy : List (Nat × Nat)          -- reversed: (actor, id)
+  rets : List (Nat × Option Nat)     -- reversed: (id, first)
+
+def lset {α} (l : List α) (i : Nat) (a : α) : List α := l.set i a
+def lget {α} [Inhabited α] (l : List α) (i : Nat) : α := l.getD i default
+
+def P.init (n : Nat) (todo : List (List Nat)) : P :=
+  { s := SMV.Protocol.init, n := n, todo := todo, sending := List.replicate n none,
+    first := List.replicate n none, outer := List.replicate n false, nestLeft := [], procBy := [], rets := [] }
+
+def pcStr : Pc → String
+  | .idle => "idle" | .putDone => "putDone" | .check => "check"
+  | .processing e => s!"processing({e.sender}:{e.id})" | .exiting => "exiting" | .recheck => "recheck"
+
+def evStr (e : Ev) : String := s!"{e.sender}:{e.id}"
+def evsStr (l : List Ev) : String := if l.isEmpty then "-" else ",".intercalate (l.map evStr)
+def optStr : Option Nat → String | some x => toString x | none => "N"
+
+def labelStr : Label → String
+  | .put i id => s!"put {i} {id}" | .acqOk i => s!"acqOk {i}" | .acqFail i => s!"acqFail {i}"
+  | .pop i => s!"pop {i}" | .nested i id => s!"nested {i} {id}" | .done i => s!"done {i}"
+  | .empty i => s!"empty {i}" | .emptyRelease i => s!"emptyRelease {i}" | .release i => s!"release {i}"
+  | .recheckEmpty i => s!"recheckEmpty {i}" | .recheckMore i => s!"recheckMore {i}"
+
+/-- apply a label through the model's `step?` and update the program layer -/
+def P.apply (fixed atomic : Bool) (nest : Nat → List Nat) (p : P) (l : Label) : Option P :=
+  match step? fixed atomic p.s l with
+  | none => none
+  | some s' =>
+    let i := l.actor
+    let p1 : P := { p with s := s' }
+    let p2 : P := match l with
+      | .put _ id => { p1 with sending := lset p1.sending i (some id), first := lset p1.first i none,
+                               outer := lset p1.outer i true,
+                               todo := lset p1.todo i ((lget p1.todo i).drop 1) }
+      | .pop _ =>
+        match p.s.queue with
+        | e :: _ =>
+          let fst := if lget p1.outer i && (lget p1.first i).isNone then some e.id else lget p1.first i
+          { p1 with procBy := (i, e.id) :: p1.procBy, first := lset p1.first i fst, nestLeft := nest e.id }
+        | [] => p1
+      | .nested _ _ => { p1 with nestLeft := p1.nestLeft.drop 1 }
+      | .release _ => { p1 with outer := lset p1.outer i false }
+      | _ => p1
+    -- return of the top-level send
+    match s'.pc i, lget p2.sending i with
+    | .idle, some id => some { p2 with sending := lset p2.sending i none, rets := (id, lget p2.first i) :: p2.rets }
+    | _, _ => some p2
+
+def P.key (p : P) : String :=
+  let pcs := ",".intercalate ((List.range p.n).map fun i => pcStr (p.s.pc i))
+  let q := evsStr p.s.queue
+  let pb := ",".intercalate (p.procBy.map fun (a, b) => s!"{a}:{b}")
+  let rs := ",".intercalate (p.rets.map fun (a, b) => s!"{a}:{optStr b}")
+  let td := ";".intercalate (p.todo.map fun l => ",".intercalate (l.map toString))
+  let fs := ",".intercalate (p.first.map optStr)
+  let ou := ",".intercalate (p.outer.map fun b => if b then "1" else "0")
+  let nl := ",".intercalate (p.nestLeft.map toString)
+  s!"{pcs}|{q}|{p.s.lock}|{pb}|{rs}|{td}|{fs}|{ou}|{nl}"
+
+/-- program-constrained successors -/
+def P.succs (fixed atomic : Bool) (nest : Nat → List Nat) (p : P) : List P :=
+  (List.range p.n).flatMap fun i =>
+    let puts : List Label := match p.s.pc i, lget p.todo i with
+      | .idle, id :: _ => [.put i id]
+      | _, _ => []
+    let nesteds : List Label := match p.s.pc i, p.nestLeft with
+      | .processing _, id :: _ => [.nested i id]
+      | _, _ => []
+    let others := (enabledOf fixed atomic p.s i).filter fun l =>
+      match l with
+      | .done _ => p.nestLeft.isEmpty
+      | _ => true
+    (puts ++ nesteds ++ others).filterMap (p.apply fixed atomic nest)
+
+def P.outcome (p : P) : String :=
+  let pb := ",".intercalate (p.procBy.reverse.map fun (a, b) => s!"{a}:{b}")
+  let rs := ",".intercalate ((p.rets.toArray.qsort (fun a b => a.1 < b.1)).toList.map fun (a, b) => s!"{a}:{optStr b}")
+  let left := if p.s.queue.isEmpty then "-" else ",".intercalate (p.s.queue.map fun e => toString e.id)
+  let stuck := if (List.range p.n).all (fun i => p.s.pc i == .idle) then "" else " stuck=1"
+  s!"out proc={if pb == "" then "-" else pb} rets={if rs == "" then "-" else rs} left={left}{stuck}"
+
+partial def enumerate (fixed atomic : Bool) (nest : Nat → List Nat) (limit : Nat)
+    (stack : List P) (seen : Std.HashSet String) (outs : Std.HashSet String) : Std.HashSet String × Std.HashSet String :=
+  match stack with
+  | [] => (seen, outs)
+  | p :: rest =>
+    if seen.size ≥ limit then (seen, outs) else
+    let nexts := p.succs fixed atomic nest
+    if nexts.isEmpty then enumerate fixed atomic nest limit rest seen (outs.insert p.outcome)
+    else
+      let (stack', seen') := nexts.foldl (fun (acc : List P × Std.HashSet String) q =>
+        let k := q.key
+        if acc.2.contains k then acc else (q :: acc.1, acc.2.insert k)) (rest, seen)
+      enumerate fixed atomic nest limit stack' seen' outs
+
+structure Scn where
+  kind : String
+  name : String
+  fixed : Bool := true
+  atomic : Bool := false
+  n : Nat := 0
+  limit : Nat := 2000000
+  labels : Array Label := #[]
+  progs : List (Nat × List Nat) := []
+  nests : List (Nat × List Nat) := []
+  bad : Option String := none
+
+def parseLabel (toks : List String) : Option Label :=
+  match toks with
+  | ["put", i, id] => some (.put (natOf i) (natOf id))
+  | ["nested", i, id] => some (.nested (natOf i) (natOf id))
+  | ["acqOk", i] => some (.acqOk (natOf i))
+  | ["acqFail", i] => some (.acqFail (natOf i))
+  | ["pop", i] => some (.pop (natOf i))
+  | ["done", i] => some (.done (natOf i))
+  | ["empty", i] => some (.empty (natOf i))
+  | ["emptyRelease", i] => some (.emptyRelease (natOf i))
+  | ["release", i] => some (.release (natOf i))
+  | ["recheckEmpty", i] => some (.recheckEmpty (natOf i))
+  | ["recheckMore", i] => some (.recheckMore (natOf i))
+  | _ => none
+
+def addLine (sc : Scn) (line : String) : Scn :=
+  match splitWs line with
+  | "cfg" :: rest =>
+    { sc with fixed := kv rest "fixed" == "1", atomic := kv rest "atomic" == "1", n := natOf (kv rest "n"),
+              limit := if kv rest "limit" == "-" then sc.limit else natOf (kv rest "limit") }
+  | "l" :: rest =>
+    match parseLabel rest with
+    | some l => { sc with labels := sc.labels.push l }
+    | none => { sc with bad := some line }
+  | ["prog", i, ids] => { sc with progs := sc.progs ++ [(natOf i, natList ids)] }
+  | ["nest", id, ids] => { sc with nests := sc.nests ++ [(natOf id, natList ids)] }
+  | [] => sc
+  | _ => { sc with bad := some line }
+
+/-- with `atomic`, fold `empty i; release i` into `emptyRelease i` (and reject an `empty i` followed by
+anything else: another step in between is not a step sequence of the atomic protocol) -/
+def foldAtomic : List Label → Except String (List Label)
+  | [] => .ok []
+  | .empty i :: .release j :: rest =>
+    if i == j then (foldAtomic rest).map (.emptyRelease i :: ·)
+    else .error s!"atomic: empty {i} followed by release {j}"
+  | .empty i :: l :: _ => .error s!"atomic: empty {i} followed by '{labelStr l}' instead of release {i}"
+  | [.empty i] => .error s!"atomic: empty {i} is the last step"
+  | l :: rest => (foldAtomic rest).map (l :: ·)
+
+def runValidate (sc : Scn) : List String := Id.run do
+  let nest := fun (_ : Nat) => ([] : List Nat)
+  let labels ← match (if sc.atomic then foldAtomic sc.labels.toList else .ok sc.labels.toList) with
+    | .ok ls => pure ls
+    | .error e => return [s!"valid 0 at=- reason={e.replace " " "_"}"]
+  let mut p := P.init sc.n (List.replicate sc.n [])
+  let mut k := 0
+  for l in labels do
+    match p.apply sc.fixed sc.atomic nest l with
+    | some p' => p := p'
+    | none =>
+      let pcs := ",".intercalate ((List.range sc.n).map fun i => s!"{i}={pcStr (p.s.pc i)}")
+      return [s!"valid 0 at={k} label={(labelStr l).replace " " "_"} pcs={pcs} lock={p.s.lock} queue={evsStr p.s.queue}"]
+    k := k + 1
+  let pcs := ",".intercalate ((List.range sc.n).map fun i => s!"{i}={pcStr (p.s.pc i)}")
+  let logOk := decide (p.s.log = p.s.processed.flatMap (fun e => [Mark.beg e, Mark.fin e]) ++
+      (match p.s.cur with | some e => [Mark.beg e] | none => []))
+  let fifoOk := decide (p.s.processed ++ p.s.cur.toList ++ p.s.queue = p.s.history)
+  return [s!"valid 1 steps={k}", p.outcome, s!"processed {evsStr p.s.processed}", s!"history {evsStr p.s.history}",
+          s!"queue {evsStr p.s.queue}", s!"lock {p.s.lock}", s!"pcs {pcs}", s!"inv serial={logOk} fifo={fifoOk}"]
+
+def runEnum (sc : Scn) : List String :=
+  let nest := fun (id : Nat) => match sc.nests.find? (·.1 == id) with
+    | some (_, l) => l
+    | none => []
+  let todo := (List.range sc.n).map fun i => match sc.progs.find? (·.1 == i) with
+    | some (_, l) => l
+    | none => []
+  let p0 := P.init sc.n todo
+  let (seen, outs) := enumerate sc.fixed sc.atomic nest sc.limit [p0] (Std.HashSet.emptyWithCapacity.insert p0.key) {}
+  let os := (outs.toArray.qsort (· < ·)).toList
+  os ++ [s!"states {seen.size} outcomes {os.length} complete={if seen.size < sc.limit then 1 else 0}"]
+
+def emit (sc : Scn) : IO Unit := do
+  IO.println s!"scn {sc.name}"
+  match sc.bad with
+  | some l => IO.println s!"error bad line: {l}"
+  | none =>
+    let lines := if sc.kind == "validate" then runValidate sc else if sc.kind == "enum" then runEnum sc
+      else [s!"error unknown kind {sc.kind}"]
+    for l in lines do IO.println l
+  IO.println "end"
+
+partial def loop (h : IO.FS.Stream) (cur : Option Scn) : IO Unit := do
+  let line ← h.getLine
+  if line.isEmpty then return
+  let t := line.trimAscii.toString
+  match splitWs t, cur with
+  | ["scn", kind, name], _ => loop h (some { kind := kind, name := name })
+  | ["end"], some sc => emit sc; loop h none
+  | _, some sc => loop h (some (addLine sc t))
+  | _, none => loop h none
+
+end DrvP
+
+def main : IO Unit := do
+  DrvP.loop (← IO.getStdin) none
